@@ -94,7 +94,7 @@ def gen_tok_shape(source, chain):
         stage_exprs.append({"M": ".map(tmk_map(%d, c.cl[%d]))", "F": ".filter(mk_fil(%d, c.cl[%d]))",
                             "X": ".flat_map(tmk_flat(%d, c.cl[%d]))", "O": ".filter_map(tmk_fm(%d, c.cl[%d]))"}[s] % (sid, k))
     build = "%s.num_threads(c.nt1).chunk_size(c.cs1)%s" % (expr, "".join(stage_exprs))
-    lines.append("    macro_rules! build { () => {{ set_phase(0); let p = %s; let p = p.chunk_size(c.cs2).num_threads(c.nt2); *hdr.borrow_mut() = format!(\"params={} kind={}\", params_str(p.params()), kind_of(&p)); set_phase(1); p }} }" % build)
+    lines.append("    macro_rules! build { () => {{ set_phase(0); let p = %s; let p = if c.trail { p.chunk_size(c.cs2).num_threads(c.nt2) } else { p }; *hdr.borrow_mut() = format!(\"params={} kind={}\", params_str(p.params()), kind_of(&p)); set_phase(1); p }} }" % build)
     lines.append("    match &c.term {")
     lines.append("        Term::Cv => { let p = build!(); let r = p.collect_vec(); r_list(r.iter().map(|x| x.v()).collect()) }")
     lines.append("        Term::Cs => { let p = build!(); let r = p.collect(); r_list(r.iter().map(|x| x.v()).collect()) }")
@@ -108,12 +108,12 @@ def gen_tok_shape(source, chain):
     lines.append("            }")
     lines.append("        }")
     lines.append("        Term::Cnt => { let p = build!(); format!(\"N:{}\", p.count()) }")
-    lines.append("        Term::Fe => { let p = build!(); p.for_each(mk_each(%d)); \"U\".to_string() }" % pid)
-    lines.append("        Term::Red(o) => { let p = build!(); r_opt(p.reduce(tmk_red(%d, *o)).map(|x| x.v())) }" % pid)
-    lines.append("        Term::Find(q) => { let p = build!(); r_opt(p.find(mk_fil(%d, *q)).map(|x| x.v())) }" % pid)
+    lines.append("        Term::Fe => { let p = build!(); p.for_each(mk_each(c.pid)); \"U\".to_string() }")
+    lines.append("        Term::Red(o) => { let p = build!(); r_opt(p.reduce(tmk_red(c.pid, *o)).map(|x| x.v())) }")
+    lines.append("        Term::Find(q) => { let p = build!(); r_opt(p.find(mk_fil(c.pid, *q)).map(|x| x.v())) }")
     lines.append("        Term::First => { let p = build!(); r_opt(p.first().map(|x| x.v())) }")
-    lines.append("        Term::Any(q) => { let p = build!(); r_bool(p.any(mk_fil(%d, *q))) }" % pid)
-    lines.append("        Term::All(q) => { let p = build!(); r_bool(p.all(mk_fil(%d, *q))) }" % pid)
+    lines.append("        Term::Any(q) => { let p = build!(); r_bool(p.any(mk_fil(c.pid, *q))) }")
+    lines.append("        Term::All(q) => { let p = build!(); r_bool(p.all(mk_fil(c.pid, *q))) }")
     lines.append("        _ => \"unsupported\".to_string(),")
     lines.append("    }")
     lines.append("}")
@@ -157,7 +157,7 @@ def gen_shape(source, chain):
             stage_exprs.append(".filter_map(mk_fm(%d, c.cl[%d]))" % (sid, k))
             t = "val"
     build = "%s.num_threads(c.nt1).chunk_size(c.cs1)%s" % (expr, "".join(stage_exprs))
-    lines.append("    macro_rules! build { () => {{ set_phase(0); let p = %s; let pmid = params_str(p.params()); let p = p.chunk_size(c.cs2).num_threads(c.nt2); *hdr.borrow_mut() = format!(\"params={} pmid={} kind={}\", params_str(p.params()), pmid, kind_of(&p)); set_phase(1); p }} }" % build)
+    lines.append("    macro_rules! build { () => {{ set_phase(0); let p = %s; let pmid = params_str(p.params()); let p = if c.trail { p.chunk_size(c.cs2).num_threads(c.nt2) } else { p }; *hdr.borrow_mut() = format!(\"params={} pmid={} kind={}\", params_str(p.params()), pmid, kind_of(&p)); set_phase(1); p }} }" % build)
     rust_t = {"val": "i64", "ref": "&i64", "us": "usize"}[t]
     # old contents for collect_into, in the item type
     if t == "val":
@@ -166,9 +166,9 @@ def gen_shape(source, chain):
         old_vec = "old.iter().collect::<Vec<&i64>>()"
     else:
         old_vec = "old.iter().map(|x| *x as usize).collect::<Vec<usize>>()"
-    red = "p.reduce(mk_red(%d, *o))" % pid if t == "val" else "p.reduce(mk_red_sel(%d, *o)).map(|x| x.v())" % pid
+    red = "p.reduce(mk_red(c.pid, *o))" if t == "val" else "p.reduce(mk_red_sel(c.pid, *o)).map(|x| x.v())"
     has_ix = (not opaque) and kind in ("Empty", "Map", "Filter", "MapFilter")
-    findix = ("r_optix(p.find_with_index(mk_fil(%d, *q)).map(|(i, x)| (i, x.v())))" % pid) if has_ix else "\"unsupported\".to_string()"
+    findix = ("r_optix(p.find_with_index(mk_fil(c.pid, *q)).map(|(i, x)| (i, x.v())))") if has_ix else "\"unsupported\".to_string()"
     firstix = "r_optix(p.first_with_index().map(|(i, x)| (i, x.v())))" if has_ix else "\"unsupported\".to_string()"
     lines.append("    match &c.term {")
     lines.append("        Term::Cv => { let p = build!(); let r = p.collect_vec(); r_list(r.iter().map(|x| x.v()).collect()) }")
@@ -183,14 +183,14 @@ def gen_shape(source, chain):
     lines.append("            }")
     lines.append("        }")
     lines.append("        Term::Cnt => { let p = build!(); format!(\"N:{}\", p.count()) }")
-    lines.append("        Term::Fe => { let p = build!(); p.for_each(mk_each(%d)); \"U\".to_string() }" % pid)
+    lines.append("        Term::Fe => { let p = build!(); p.for_each(mk_each(c.pid)); \"U\".to_string() }")
     lines.append("        Term::Red(o) => { let p = build!(); r_opt(%s) }" % red)
-    lines.append("        Term::Find(q) => { let p = build!(); r_opt(p.find(mk_fil(%d, *q)).map(|x| x.v())) }" % pid)
+    lines.append("        Term::Find(q) => { let p = build!(); r_opt(p.find(mk_fil(c.pid, *q)).map(|x| x.v())) }")
     lines.append("        Term::FindIx(q) => { let _ = q; %s }" % (("{ let p = build!(); %s }" % findix) if has_ix else findix))
     lines.append("        Term::First => { let p = build!(); r_opt(p.first().map(|x| x.v())) }")
     lines.append("        Term::FirstIx => { %s }" % (("{ let p = build!(); %s }" % firstix) if has_ix else firstix))
-    lines.append("        Term::Any(q) => { let p = build!(); r_bool(p.any(mk_fil(%d, *q))) }" % pid)
-    lines.append("        Term::All(q) => { let p = build!(); r_bool(p.all(mk_fil(%d, *q))) }" % pid)
+    lines.append("        Term::Any(q) => { let p = build!(); r_bool(p.any(mk_fil(c.pid, *q))) }")
+    lines.append("        Term::All(q) => { let p = build!(); r_bool(p.all(mk_fil(c.pid, *q))) }")
     lines.append("    }")
     lines.append("}")
     return "\n".join(lines)
